@@ -314,7 +314,9 @@ where
 
   fn close_internal(&self) {
     if let Some(dispatcher) = self.dispatcher.upgrade() {
-      let topics_to_unsubscribe: Vec<K> = self.subscriptions.lock().drain().collect();
+      // Collect without draining: `unsubscribe` only acts on topics that are still
+      // in the local set.
+      let topics_to_unsubscribe: Vec<K> = self.subscriptions.lock().iter().cloned().collect();
       for topic in topics_to_unsubscribe {
         self.unsubscribe(&topic);
       }
